@@ -366,6 +366,7 @@ func importBlockRule(p *core.Program, r *core.Report, rule string) {
 		r.Anchor(rule, "the import printer of pkg/gengo (the function that writes `import (`)")
 		return
 	}
+	w = flatten(p, w) // loops in range form
 	info := w.Info()
 	// the path->name map: a parameter, or a local read from the tracker's Imports()
 	var mp *types.Var
